@@ -73,6 +73,10 @@ protected:
     /** The edge under construction. */
     edge_t* currentEdge{nullptr};
 
+    /** Depth of the frame stack before the frame of the current template / edge was pushed. */
+    size_t templateFrameDepth{0};
+    size_t edgeFrameDepth{0};
+
     /** The gantt map under construction. */
     std::unique_ptr<gantt_t> currentGantt{nullptr};
 
